@@ -416,6 +416,9 @@ pub fn generate_c16(seed: u64, run: u64, corpus: &Corpus, tier: Tier, stats: &mu
         if mode == Mode::StdinStdout && rng.chance(1, 20) {
             c.knobs.stdout_tty = true;
         }
+        if mode.is_stdin() && rng.chance(1, 8) {
+            c.knobs.stdin_tty = true;
+        }
         if rng.chance(1, 5) {
             c.knobs.avx2 = false;
         }
@@ -631,9 +634,21 @@ pub fn generate_c17(seed: u64, run: u64, corpus: &Corpus, tier: Tier, stats: &mu
                 persistent: false,
             });
         }
+        if rng.chance(1, 10) {
+            c.faults.push(Fault {
+                target: tout.clone(),
+                op: OpKind::Write,
+                nth: rng.below(3) as u32,
+                kind: rng.pick(&[FaultKind::Eio, FaultKind::Enospc, FaultKind::WriteZero]).clone(),
+                persistent: rng.chance(1, 3),
+            });
+        }
         dedup_faults(&mut c.faults);
         if mode == Mode::StdinStdout && rng.chance(1, 25) {
             c.knobs.stdout_tty = true;
+        }
+        if mode.is_stdin() && rng.chance(1, 6) {
+            c.knobs.stdin_tty = true;
         }
         cases.push(c);
     }
